@@ -13,7 +13,7 @@ for sid in sorted(os.listdir(os.path.join(ROOT, 'seeded'))):
     if not os.path.exists(mp):
         continue
     m = json.load(open(mp))
-    rows.append("| %s | %s | %s | %s | %s |" % (sid, m['change'].replace('|', '/'), m['needs_to_manifest'].replace('|', '/'), ", ".join(m['caught_by']), m['first_violation_key'].replace('|', '/')))
+    rows.append("| %s | %s | %s | %s | %s |" % (sid, m['change'].replace('|', '/'), m['needs_to_manifest'].replace('|', '/'), (", ".join(m['caught_by']) or "– (not decided)"), m['first_violation_key'].replace('|', '/')))
 s = s[:a] + "\n".join(rows) + s[b:]
 open(p, 'w').write(s)
 print(len(rows), "rows")
